@@ -62,6 +62,9 @@ Clocks == {0, 1, 100, 4000, 5000, 5001, 5100, 6000, 10000}
 Incs == {0, 100, 3000}
 UnknownLines == {"", "   ", "xyzzy", "UCI", "Isready", "stop", "setoption name Hash value 16", "debug on", "ponderhit",
                  "go2 depth 1", "position", "register later", "QUIT", "exit", "isready?", "bestmove e2e4",
+                 \* lines that begin like a known command but are truncated or malformed (nothing the engine could act on)
+                 "position fen", "position fen 8/8/8/8/8/8/8/8 w - -", "position fen rnbqkbnr/pppppppp/8/8/8/8/PPPPPPPP/RNBQKBNR w KQkq - 0",
+                 "position xyz", "position moves e2e4", "setoption", "setoption name", "setoption name Hash value", "ucinewgame2",
                  \* lines that are not valid UTF-8 (the runner turns \xNN into the raw byte), tabs, very long lines
                  "foo \\xff\\xfe bar", "\\xc3\\x28", "caf\\xe9 isready", "\\x80uci", "\tisready?\t", "uci\\x00x",
                  "xxxxxxxxxxxxxxxxxxxxxxxxxxxxxxxxxxxxxxxxxxxxxxxxxxxxxxxxxxxxxxxxxxxxxxxxxxxxxxxxxxxxxxxxxxxxxxxxxxxxxxxxxxxxxxxxxxxxxxxxxxxxxxxxxxxxxxxx"}
